@@ -32,10 +32,21 @@ func VerifH_C08_DeferredRaces() {
 	opA := vChoose("opA", 3)
 	opB := vChoose("opB", 3)
 	vAssume(opA <= opB)
-	vConcurrently(
-		func() { vDWOp(dw, opA, b1, first.c) },
-		func() { vDWOp(dw, opB, b2, first.c) },
-	)
+	if vTier() == 1 {
+		// thorough: three concurrent calls
+		opC := vChoose("opC", 3)
+		vAssume(opB <= opC)
+		vConcurrently(
+			func() { vDWOp(dw, opA, b1, first.c) },
+			func() { vDWOp(dw, opB, b2, first.c) },
+			func() { vDWOp(dw, opC, b1, first.c) },
+		)
+	} else {
+		vConcurrently(
+			func() { vDWOp(dw, opA, b1, first.c) },
+			func() { vDWOp(dw, opB, b2, first.c) },
+		)
+	}
 	vRaceCheck("deferred")
 	vCover("put-vs-close", opA == 0 && opB == 2)
 	vCover("first-put-vs-first-put", opA == 0 && opB == 0)
